@@ -132,6 +132,30 @@ Fixpoint pe_loop (m : bytes) : outcome bytes :=
 Definition percent_encode (m : bytes) : outcome bytes :=
   if N.of_nat (length (filter should_escape m)) =? 0 then Done m else pe_loop m.
 
+(* The grpc-message value the reference server puts into its status trailers:
+   PercentEncodeMessage, and a space at either end of the result written as %20 (optional
+   whitespace around a field value does not survive the trailer block of gRPC-Web or an
+   HTTP/1.1 hop, and the message has to agree with grpc-status-details-bin).  A space at an
+   end of the encoding is a space at that end of the message (escapes begin with '%' and end
+   with a hex digit), so this is computed per message byte. *)
+Fixpoint tm_loop (first : bool) (m : bytes) : outcome bytes :=
+  match m with
+  | [] => Done []
+  | c :: r =>
+    match tm_loop false r with
+    | Crash => Crash
+    | Done t =>
+      if should_escape c then
+        match hex_at (c / 16), hex_at (c mod 16) with
+        | Done h, Done l => Done (37 :: h :: l :: t)
+        | _, _ => Crash
+        end
+      else if (first || is_nil r) && (c =? 32) then Done (37 :: 50 :: 48 :: t)
+      else Done (c :: t)
+    end
+  end.
+Definition trailer_message (m : bytes) : outcome bytes := tm_loop true m.
+
 (* url.PathUnescape *)
 Definition unhex (c : N) : option N :=
   if (48 <=? c) && (c <=? 57) then Some (c - 48)
@@ -490,7 +514,7 @@ Section Encoders.
   Variable marshal : Z -> bytes -> list (bytes * bytes) -> option bytes.
 
   Definition grpc_status_trailers (code : N) (msg : bytes) (details : list detail) : outcome (list header) :=
-    match percent_encode msg with
+    match trailer_message msg with
     | Crash => Crash
     | Done pm =>
       Done ([ (bs "grpc-status", [dec_of_N code]); (bs "grpc-message", [pm]) ] ++
@@ -908,10 +932,11 @@ Definition run_c13_enc (args : list sx) : sx :=
   | _ => None end).
 
 (* c13.webrt: the reference server's gRPC-Web end-stream for an error, examined: must be silent.
-   code msg details trailers marshal-oracle unmarshal-table block(real encoder's; Go side) -> (block, feedback, feedback) *)
+   code msg details trailers marshal-oracle unmarshal-table block(real encoder's; Go side) digest(ties the block to the structured input; Go side)
+   -> (block, feedback, feedback) *)
 Definition run_c13_webrt (args : list sx) : sx :=
   or_bad (match args with
-  | [I code; B msg; ds; trs; mo; tbl; B _] =>
+  | [I code; B msg; ds; trs; mo; tbl; B _; B _] =>
     do ds <- un_listof un_detail ds; do trs <- un_headers trs; do mo <- un_opt un_B mo; do tbl <- un_utable tbl;
     let code := Z.to_N code in
     ret (sx_outcome (fun blk =>
@@ -924,7 +949,7 @@ Definition run_c13_webrt (args : list sx) : sx :=
 (* c13.grpcrt: the reference server's gRPC trailers for an error as net/http delivers them, examined *)
 Definition run_c13_grpcrt (args : list sx) : sx :=
   or_bad (match args with
-  | [I code; B msg; ds; mo; tbl; L _] =>
+  | [I code; B msg; ds; mo; tbl; L _; B _] =>
     do ds <- un_listof un_detail ds; do mo <- un_opt un_B mo; do tbl <- un_utable tbl;
     let code := Z.to_N code in
     ret (sx_outcome (fun st =>
